@@ -48,6 +48,8 @@ def main():
     for k in ("MaxTerm", "MaxLog", "MaxTimer", "MaxAE", "MaxClient", "MaxCrash", "MaxHalf", "MaxNet", "MaxSnap", "SnapSize", "MaxRead", "MaxCfg"):
         cfg += "  %s = %s\n" % (k, opt[k])
     cfg += "  AsyncKinds = %s\n  W = %s\n  Gen = TRUE\n  MayTimeout = %s\n" % (strset(opt["AsyncKinds"]), strset(w), setv(opt.get("MayTimeout", opt["Node"])))
+    # links=ab,cd : only these pairs of nodes may exchange messages (role script)
+    cfg += "  MayLink = {%s}\n" % ", ".join("{%s, %s}" % (x[0], x[1]) for x in opt.get("links", "").split(",") if x)
     if timed:
         cfg += "  E = %s\n  L = %s\n  D = %s\n  TP = %d\n  InitAge = %s\nINIT TInit\nNEXT TNext\nINVARIANTS %s\nCHECK_DEADLOCK FALSE\n" % (
             opt["E"], opt["L"], opt["D"], 2 * int(opt["E"]), opt["E"], " ".join(opt["invariants"].split(",")))
